@@ -76,25 +76,29 @@ where
             (i + 1, u32::from(first))
         } else {
             // 2 bytes ~
-            let (i, rest) = unsafe { self.inner.next().unwrap_unchecked() };
+            //
+            // The source is not trusted to be well-formed: `StrIterator` asks its haystack for
+            // `as_ref()` on every byte, and a (safe) `AsRef<str>` implementation may hand out a
+            // different string each time. A truncated or malformed sequence ends the iteration.
+            let (i, rest) = self.inner.next()?;
             let c = u32::from(rest & 0x3f);
             if first < 0xe0 {
                 (i + 1, (u32::from(first & 0x1f) << 6) | c)
             } else {
                 // 3 bytes ~
-                let (i, rest) = unsafe { self.inner.next().unwrap_unchecked() };
+                let (i, rest) = self.inner.next()?;
                 let c = (c << 6) | u32::from(rest & 0x3f);
                 if first < 0xf0 {
                     (i + 1, (u32::from(first & 0x0f) << 12) | c)
                 } else {
                     // 4 bytes
-                    let (i, rest) = unsafe { self.inner.next().unwrap_unchecked() };
+                    let (i, rest) = self.inner.next()?;
                     let c = (c << 6) | u32::from(rest & 0x3f);
                     (i + 1, (u32::from(first & 0x07) << 18) | c)
                 }
             }
         };
-        Some((end_offset, unsafe { char::from_u32_unchecked(c) }))
+        Some((end_offset, char::from_u32(c)?))
     }
 }
 
@@ -271,7 +275,9 @@ where
         let mut last_output_pos: Option<NonZeroU32> = None;
 
         let mut skips = 0;
-        for c in unsafe { self.haystack.as_ref().get_unchecked(self.pos..) }.chars() {
+        // `self.pos` was computed from an earlier `as_ref()`; a (safe) `AsRef<str>` implementation
+        // may return a shorter string now, so the resume offset is checked.
+        for c in self.haystack.as_ref().get(self.pos..)?.chars() {
             skips += c.len_utf8();
 
             // state_id is always smaller than self.pma.states.len() because
